@@ -7,6 +7,7 @@ import (
 	"go/token"
 	"go/types"
 	"sort"
+	"strings"
 
 	"golang.org/x/tools/go/ssa"
 )
@@ -396,4 +397,169 @@ func condIsValue(cond, v ssa.Value, truth bool) (bool, bool) {
 		return truth, true
 	}
 	return false, false
+}
+
+// viaDeep lifts a value-independent instruction predicate over static calls:
+// an instruction also satisfies the lifted predicate when it is a plain
+// (not deferred, not go) static call of a repository function on every
+// entry-to-return path of which some instruction satisfies the lifted
+// predicate (summaries to depth 3).  Extracting the statements a rule looks
+// for into a helper therefore does not change the verdict.
+func viaDeep(via func(ssa.Instruction) bool) func(ssa.Instruction) bool {
+	memo := map[*ssa.Function]int{} // 1 always, 2 not (or in progress)
+	var pred func(ins ssa.Instruction, depth int) bool
+	always := func(fn *ssa.Function, depth int) bool {
+		if r, ok := memo[fn]; ok {
+			return r == 1
+		}
+		memo[fn] = 2
+		first := fn.Blocks[0].Instrs[0]
+		_, ok := mustPassBefore(first, func(i ssa.Instruction) bool { return pred(i, depth) }, isReturn)
+		if ok {
+			memo[fn] = 1
+		}
+		return ok
+	}
+	pred = func(ins ssa.Instruction, depth int) bool {
+		if via(ins) {
+			return true
+		}
+		cl, ok := ins.(*ssa.Call)
+		if !ok || depth >= 3 {
+			return false
+		}
+		f := cl.Call.StaticCallee()
+		if f == nil || len(f.Blocks) == 0 || !strings.HasPrefix(funcPkgPath(f), modPath) {
+			return false
+		}
+		return always(f, depth+1)
+	}
+	return func(ins ssa.Instruction) bool { return pred(ins, 0) }
+}
+
+// eachInstrDeep visits the instructions of fn and of the repository functions
+// it calls statically (plain calls, defers and go statements alike), to the
+// given depth, each function once.
+func eachInstrDeep(fn *ssa.Function, depth int, f func(ssa.Instruction)) {
+	seen := map[*ssa.Function]bool{}
+	var rec func(fn *ssa.Function, d int)
+	rec = func(fn *ssa.Function, d int) {
+		if seen[fn] {
+			return
+		}
+		seen[fn] = true
+		eachInstr(fn, func(ins ssa.Instruction) {
+			f(ins)
+			if ci, ok := ins.(ssa.CallInstruction); ok && d < depth {
+				if g := ci.Common().StaticCallee(); g != nil && len(g.Blocks) > 0 && strings.HasPrefix(funcPkgPath(g), modPath) {
+					rec(g, d+1)
+				}
+			}
+		})
+	}
+	rec(fn, 0)
+}
+
+// paramArg: when v is a parameter of a function that is not used as a value
+// and has exactly one static call site in the repository, the argument passed
+// there (resolved repeatedly); otherwise v itself.
+func (l *Loaded) paramArg(v ssa.Value) ssa.Value {
+	for i := 0; i < 4; i++ {
+		p, ok := v.(*ssa.Parameter)
+		if !ok {
+			return v
+		}
+		fn := p.Parent()
+		if fn == nil || l.AddressTaken(fn) || l.mayBeInvoked(fn) {
+			return v
+		}
+		cs := l.StaticCallers(fn)
+		if len(cs) != 1 {
+			return v
+		}
+		idx := -1
+		for k, q := range fn.Params {
+			if q == p {
+				idx = k
+			}
+		}
+		args := cs[0].Common().Args
+		if idx < 0 || idx >= len(args) {
+			return v
+		}
+		v = args[idx]
+	}
+	return v
+}
+
+// mayBeInvoked: fn is a method whose name occurs in some interface type of
+// the repository (it may then be called dynamically), or is exported.
+func (l *Loaded) mayBeInvoked(fn *ssa.Function) bool {
+	if fn.Signature.Recv() == nil {
+		return token.IsExported(fn.Name())
+	}
+	if token.IsExported(fn.Name()) {
+		return true
+	}
+	if l.ifaceMethods == nil {
+		l.ifaceMethods = map[string]bool{}
+		for _, p := range l.Pkgs {
+			sc := p.Types.Scope()
+			for _, n := range sc.Names() {
+				if tn, ok := sc.Lookup(n).(*types.TypeName); ok {
+					if it, ok := tn.Type().Underlying().(*types.Interface); ok {
+						for i := 0; i < it.NumMethods(); i++ {
+							l.ifaceMethods[it.Method(i).Name()] = true
+						}
+					}
+				}
+			}
+		}
+	}
+	return l.ifaceMethods[fn.Name()]
+}
+
+// poolDomain: the methods of vmPool together with the unexported functions
+// all of whose call sites are in the domain (helpers split out of a pool
+// method): the code that prepares and recycles CHILD VMs, whose stores go to
+// another VM than the running one.
+func (l *Loaded) poolDomain() map[*ssa.Function]bool {
+	if l.poolDom != nil {
+		return l.poolDom
+	}
+	E := map[*ssa.Function]bool{}
+	fns := l.RepoFuncs(func(pp string) bool { return pp == modPath })
+	for _, fn := range fns {
+		root := fn
+		for root.Parent() != nil {
+			root = root.Parent()
+		}
+		if r := root.Signature.Recv(); r != nil && isNamed(r.Type(), modPath, "vmPool") {
+			E[fn] = true
+		}
+	}
+	for changed := true; changed; {
+		changed = false
+		for _, fn := range fns {
+			if E[fn] || fn.Parent() != nil || l.AddressTaken(fn) || l.mayBeInvoked(fn) {
+				continue
+			}
+			cs := l.StaticCallers(fn)
+			if len(cs) == 0 {
+				continue
+			}
+			all := true
+			for _, ci := range cs {
+				if !E[ci.Parent()] {
+					all = false
+				}
+			}
+			if all {
+				E[fn] = true
+				changed = true
+			}
+		}
+	}
+	l.poolDom = E
+	return E
 }
